@@ -30,52 +30,67 @@ def run(cx, chk):
         "same value; all fallible steps are `?`-propagated; directory mode calls the same routine for .ebnf entries and propagates.")
     chk.assumptions = ["histories (stale prefix, CRC collisions, settings not part of the key) are outside this family's reach",
                        "the optional rustfmt child process rewrites the destination after a successful write"]
+    from .. import sem
     cg = cx.codegen
     ps = [p for p in cg.fns if last(p) == "run_on_single_file" and "mir" in cg.fns[p]]
     if not ps:
         chk.anchor_missing("C18.order", "Compile::run_on_single_file")
         return
     b = cx.body(cg, ps[0])
-    # ---- order
-    from_str = [(i, t) for i, t in b.calls() if not t["func"].get("indirect") and last(t["func"]["path"]) in ("from_str", "parse") and ("Grammar" in (t["func"].get("resolved") or "") or "FromStr" in t["func"]["path"] or "PegParser" in t["func"]["path"])]
-    gen = [(i, t) for i, t in b.calls() if not t["func"].get("indirect") and last(t["func"]["path"]) == "generate_code" and "CodegenGrammar" in t["func"]["path"]]
-    if len(from_str) != 1 or len(gen) != 1:
-        chk.violation("C18.order", "shape", "run_on_single_file does not parse and generate exactly once (%d/%d)" % (len(from_str), len(gen)), cx.site(b))
+    # the routine with its private helpers inlined (an extracted `is_up_to_date` / `write_output` reads like inline code)
+    local = lambda q: q in cg.fns and "mir" in cg.fns[q] and "{closure" not in q and "::grammar::generated::" not in q \
+        and "Codegen" not in q and last(q) not in ("generate_code", "generate_source_header", "from_str", "parse") and "buildscript" in q
+    S = sem.Sem(cx, cg, inline=local, max_leaves=4000)
+    try:
+        sm = S.summarize(ps[0])
+    except sem.SemLimit as ex:
+        chk.violation("C18.order", "unsummarised", "run_on_single_file could not be summarised: %s" % ex, cx.site(b))
         return
-    muts = []
-    for i, t in b.calls():
-        f = t["func"]
-        if f.get("indirect"):
-            continue
-        path = mir.strip_generics(f["path"])
-        if FILE_MUT.match(path):
-            muts.append((i, t, path))
-    if not muts:
-        chk.violation("C18.order", "no-write", "run_on_single_file never writes the destination", cx.site(b))
+    leaves = [l for l in sm.leaves if l.kind == "return"]
 
-    def success_dominates(call_bb, site):
-        """site is dominated by the Continue/Ok edge of the `?` applied to the result of the call at call_bb."""
-        for (e, v, d) in b.atoms(site):
-            if e[0] == "discr" and v == 0:
-                inner = e[1]
-                for s_ in walk(inner):
-                    if s_[0] == "call" and norm(b.expr_call(b.blocks[call_bb]["term"])) == s_:
-                        return True
-        return False
-    for (i, t, path) in muts:
-        tag = "%s@%s" % (short(path), "run_on_single_file")
-        a = success_dominates(from_str[0][0], i)
-        g = success_dominates(gen[0][0], i)
-        if a and g:
-            chk.ok("C18.order", tag, {"mutation": path, "dominated_by": ["Grammar::from_str ok", "generate_code ok"]})
-        else:
-            chk.violation("C18.order", "%s before %s" % (short(path), "parse" if not a else "codegen"),
-                          "the destination is modified (%s) on a path where %s has not succeeded yet: a failing run can leave a new, "
-                          "truncated or header-only destination behind (which the up-to-date shortcut then accepts)" % (
-                              path, "parsing the grammar" if not a else "code generation"), cx.site(b, i))
+    def is_parse(t):
+        return t[0] == "call" and last(t[1]) in ("from_str", "parse", "parse_with_trace") and ("Grammar" in (t[3] or "") or "FromStr" in t[1] or "PegParser" in t[1] or "str" in t[1])
+
+    def is_gen(t):
+        return t[0] == "call" and last(t[1]) == "generate_code" and "CodegenGrammar" in t[1]
+
+    def is_mut(t):
+        return t[0] == "call" and FILE_MUT.match(mir.strip_generics(t[1]))
+
+    def succeeded(leaf, t):
+        k = leaf.facts.get(mir.mk("discr", t))
+        return k == 0
+    # ---- order
+    n_mut = 0
+    mut_fns = set()
+    probs = set()
+    for leaf in leaves:
+        parsed = generated = None
+        for ev in leaf.trace:
+            t = ev[0]
+            if is_parse(t):
+                parsed = t
+            elif is_gen(t):
+                generated = t
+            elif is_mut(t):
+                n_mut += 1
+                mut_fns.add(ev[2][0])
+                a_ = parsed is not None and succeeded(leaf, parsed)
+                g_ = generated is not None and succeeded(leaf, generated)
+                if not (a_ and g_):
+                    probs.add((short(t[1]), "parse" if not a_ else "codegen"))
+    if n_mut == 0:
+        chk.violation("C18.order", "no-write", "run_on_single_file never writes the destination", cx.site(b))
+    for (path, what) in sorted(probs):
+        chk.violation("C18.order", "%s before %s" % (path, what),
+                      "the destination is modified (%s) on a path where %s has not succeeded yet: a failing run can leave a new, "
+                      "truncated or header-only destination behind (which the up-to-date shortcut then accepts)" % (
+                          path, "parsing the grammar" if what == "parse" else "code generation"), cx.site(b))
+    if n_mut and not probs:
+        chk.ok("C18.order", "file mutations in run_on_single_file", {"mutating_events": n_mut, "dominated_by": ["Grammar::from_str ok", "generate_code ok"], "paths": len(leaves)})
     # nothing else in the crate mutates files
     for p, ob in c16.generator_bodies(cx):
-        if p == ps[0] or "::grammar::generated::" in p:
+        if p in mut_fns or p == ps[0] or "::grammar::generated::" in p:
             continue
         for i, t in ob.calls():
             f = t["func"]
@@ -84,49 +99,50 @@ def run(cx, chk):
             path = mir.strip_generics(f["path"])
             if FILE_MUT.match(path):
                 chk.violation("C18.order", "%s mutates files" % short(p), "%s calls %s" % (short(p), path), cx.site(ob, i))
-    # ---- key
-    early = [d for d in b.defs.get(0, []) if d[2] == "rv" and norm(b.expr_rv(d[3]))[0] == "agg" and norm(b.expr_rv(d[3]))[2] == "Ok"
-             and not any(b.dominates(x[0], d[0]) for x in gen)]
-    text_read = [(i, t) for i, t in b.calls() if not t["func"].get("indirect") and last(t["func"]["path"]) == "read_to_string" and "fs" in t["func"]["path"]]
-    if len(early) != 1 or len(text_read) != 1:
-        chk.violation("C18.key", "shape", "cannot identify the up-to-date shortcut (%d early Ok returns, %d reads of the grammar)" % (len(early), len(text_read)), cx.site(b))
+    # ---- key: the paths that return Ok without generating anything
+    early = [l for l in leaves if l.ret is not None and l.ret[0] == "agg" and l.ret[2] == "Ok" and not any(is_gen(ev[0]) for ev in l.trace)]
+    texts = {ev[0] for l in leaves for ev in l.trace if ev[0][0] == "call" and last(ev[0][1]) == "read_to_string" and "fs::" in ev[0][1]}
+    keyv = None
+    if not early or len(texts) != 1:
+        chk.violation("C18.key", "shape", "cannot identify the up-to-date shortcut (%d early Ok paths, %d reads of the grammar)" % (len(early), len(texts)), cx.site(b))
     else:
-        eb = early[0][0]
-        eqs = [(e, v) for (e, v, d) in b.atoms(eb) if is_call(e, "eq") and v is True]
-        TEXT = norm(b.expr_call(text_read[0][1]))
-        good = False
-        keyv = None
-        for (e, v) in eqs:
-            for x, y in ((e[2][0], e[2][1]), (e[2][1], e[2][0])):
-                dep_text = any(s_ == TEXT for s_ in b.walk_deep(x))
-                dep_prefix = any(s_[0] == "field" and s_[2] == "prefix" for s_ in b.walk_deep(x))
-                from . import templates
-                from_dest = any(
-                    last(tt["func"]["path"]) == "read_to_string" and "Read" in tt["func"]["path"]
-                    and (templates.ref_target(b, tt["args"][1]) == y or norm(b.expr_local(templates.ref_target(b, tt["args"][1])[1])) == y
-                         if templates.ref_target(b, tt["args"][1])[0] == "local" else False)
-                    for _, tt in b.calls() if not tt["func"].get("indirect") and len(tt["args"]) > 1)
-                if dep_text and dep_prefix and from_dest:
-                    good = True
-                    keyv = x
-        if good:
-            chk.ok("C18.key", "shortcut", {"skip_when": "destination bytes == f(grammar text, prefix)", "key": mir.show(keyv)[:200]})
+        TEXT = list(texts)[0]
+        good_all = True
+        shown = []
+        for l in early:
+            good = False
+            for (a_, v_) in l.assume:
+                if a_[0] == "call" and last(a_[1]) in ("eq", "ne", "starts_with") and len(a_[2]) == 2 and v_ is (last(a_[1]) != "ne"):
+                    shown.append(mir.show(a_)[:160])
+                    for x, y in ((a_[2][0], a_[2][1]), (a_[2][1], a_[2][0])):
+                        dep_text = any(s_ == TEXT for s_ in walk(x))
+                        dep_prefix = any(s_[0] == "field" and s_[2] == "prefix" for s_ in walk(x))
+                        from_dest = any(s_[0] == "call" and last(s_[1]) in ("read_to_string", "read_to_end", "read", "read_exact") and
+                                        any(is_call(z, "open") or (z[0] == "call" and last(z[1]) in ("read_to_string", "read") and "fs::" in z[1] and z != TEXT) for z in walk(s_)) for s_ in walk(y)) \
+                            or any(s_[0] == "call" and last(s_[1]) in ("read_to_string", "read") and "fs::" in s_[1] and s_ != TEXT for s_ in walk(y))
+                        if dep_text and dep_prefix and from_dest:
+                            good = True
+                            keyv = x
+            if not good:
+                good_all = False
+        if good_all:
+            chk.ok("C18.key", "shortcut", {"skip_when": "destination bytes == f(grammar text, prefix)", "key": mir.show(keyv)[:200], "early_paths": len(early)})
         else:
             chk.violation("C18.key", "shortcut-condition", "the early `return Ok(())` is not control-dependent on equality between the destination's "
-                          "bytes and a value that depends on both the grammar text and the prefix: %s" % [mir.show(e)[:160] for e, v in eqs], cx.site(b, eb))
-        # what is written starts with the key
-        if good:
+                          "bytes and a value that depends on both the grammar text and the prefix: %s" % shown[:2], cx.site(b))
+        # what is written starts with (contains, built first) the key
+        if good_all and keyv is not None:
+            key_core = keyv
+            while key_core[0] == "call" and last(key_core[1]) in ("must_use", "deref", "as_str", "as_ref", "borrow") and key_core[2]:
+                key_core = key_core[2][0]
             okw = False
-            for (i, t, path) in muts:
-                if len(t["args"]) >= 2:
-                    w = norm(b.expr_op(t["args"][1]))
-                    for s_ in b.walk_deep(w):
-                        if s_[0] == "tuple" and s_[1] and s_[1][0] == keyv:
-                            okw = True
-                        if is_call(s_, "new_display") and s_[2][0] == keyv:
-                            okw = True
+            for l in leaves:
+                for ev in l.trace:
+                    t = ev[0]
+                    if is_mut(t) and len(t[2]) >= 2 and any(s_ == key_core for s_ in walk(t[2][1])):
+                        okw = True
             if okw:
-                chk.ok("C18.key", "written-prefix", {"written": "format!(\"{key}\\n{code}\") with the same key value"})
+                chk.ok("C18.key", "written-prefix", {"written": "the destination content is built from the same key value"})
             else:
                 chk.violation("C18.key", "written-prefix", "the bytes written to the destination do not start with the value the shortcut compares against", cx.site(b))
     hp = [p for p in cg.fns if last(p) == "generate_source_header" and "mir" in cg.fns[p]]
@@ -137,29 +153,27 @@ def run(cx, chk):
             chk.ok("C18.key", "header", {"header_depends_on": "its parameter (the grammar text) + compile-time constants"})
         else:
             chk.violation("C18.key", "header ignores text", "generate_source_header does not depend on the grammar text", cx.site(hb))
-    # ---- err: every fallible call result is ?-propagated (or matched)
+    # ---- err: every fallible step is propagated: a path on which it failed returns that failure
+    FALLIBLE = lambda t: t[0] == "call" and ((last(t[1]) == "read_to_string" and "fs::" in t[1]) or is_parse(t) or is_gen(t) or is_mut(t) or (last(t[1]) in ("status", "output", "spawn") and "Command" in t[1]))
     n = 0
-    for i, t in b.calls():
-        f = t["func"]
-        if f.get("indirect"):
-            continue
-        ty = b.ty(t["dest"]["l"]) if not t["dest"]["p"] else ""
-        if not ty.startswith("std::result::Result<") or last(f["path"]) in ("branch", "from_residual", "map_err"):
-            continue
-        if last(f["path"]) in ("read_to_string",) and "Read" in f["path"]:
-            continue      # reading the old destination: failure simply disables the shortcut
-        if last(f["path"]) == "open" and "File" in f["path"]:
-            continue      # a missing destination is the normal first-run case
+    seen = {}
+    for l in leaves:
+        for ev in l.trace:
+            t = ev[0]
+            if not FALLIBLE(t):
+                continue
+            k = l.facts.get(mir.mk("discr", t))
+            st_ = seen.setdefault(short(t[1]), {"examined": False, "dropped": False})
+            if k is not None:
+                st_["examined"] = True
+            if k == 1 and not (l.ret is not None and l.ret[0] == "agg" and l.ret[2] == "Err"):
+                st_["dropped"] = True
+    for nm, st_ in sorted(seen.items()):
         n += 1
-        dest = t["dest"]["l"]
-        propagated = False
-        for j, tt in b.calls():
-            if not tt["func"].get("indirect") and last(tt["func"]["path"]) in ("branch", "map_err") and tt["args"] and "place" in tt["args"][0] and tt["args"][0]["place"]["l"] == dest:
-                propagated = True
-        if propagated:
-            chk.ok("C18.err", "%s propagated" % short(f["path"]))
+        if st_["examined"] and not st_["dropped"]:
+            chk.ok("C18.err", "%s propagated" % nm)
         else:
-            chk.violation("C18.err", "%s not propagated" % short(f["path"]), "the result of %s is not `?`-propagated" % short(f["path"]), cx.site(b, i))
+            chk.violation("C18.err", "%s not propagated" % nm, "the result of %s is not `?`-propagated (%s)" % (nm, "a failure continues to a success return" if st_["dropped"] else "never examined"), cx.site(b))
     chk.floor("C18.err", "fallible steps", n, 4)
     # ---- walk
     rp = [p for p in cg.fns if last(p) == "run_recursively" and "mir" in cg.fns[p] and not p.endswith("}")]
